@@ -1,1 +1,1144 @@
-fn main(){}
+//! C11 — a multi-document stream is the list of its documents, each on its own.
+//!
+//! Differential oracle on the real code. A stream is *composed* by the generator
+//! from document bodies (one of 18 kinds) and separators, so the cut into
+//! documents is known by construction; it is then confirmed against the raw
+//! `saphyr-parser` event stream (number of `DocumentStart` events, and per
+//! document the same event shape as the body parsed on its own). Only confirmed
+//! streams get verdicts.
+//!
+//! Expected items = every body deserialized **alone** with `from_str`:
+//!   * empty / `~` / `null` bodies are skipped,
+//!   * a body whose alias has no anchor in *that* body must fail (even when an
+//!     earlier document of the stream defines the name),
+//!   * `from_multiple` / `from_slice_multiple` = `Ok(list)` iff every document
+//!     succeeds alone, else `Err`,
+//!   * `read` / `read_with_options` yield the same items in order; after a
+//!     document that fails with a type-level error the iterator goes on with the
+//!     following document; at a syntax error it yields one `Err` and ends; `None`
+//!     is reached within `documents + 2` calls of `next()` (calls are counted,
+//!     never timed) and stays `None`,
+//!   * `from_str` / `from_slice` / `from_reader` / `with_deserializer_from_*`
+//!     return `Err` for every stream whose raw parse shows a second
+//!     `DocumentStart`, and for a one-document stream give the document's value.
+//!
+//! Left unspecified (counted, no verdict): whether the iterator goes on after a
+//! document that failed on a dangling alias (the statement names type-level and
+//! syntax errors only), and everything after a dangling alias that the raw
+//! parser itself reports as a scan error.
+
+use serde::Deserialize;
+use serde::de::DeserializeOwned;
+use serde_json::{Value, json};
+use std::collections::BTreeMap;
+use std::fmt::Debug;
+use vcore::obs::{Fault, FaultReader, Schedule, catch, panic_site};
+use vcore::reftree::{RawEvent, RawKind, raw_events, style_char};
+use vcore::rng::{Rng, fnv_parts};
+use vcore::run::{Finish, Run, Tier, par_range};
+use vcore::val::Val;
+
+// ------------------------------------------------------------------ targets
+
+#[derive(Debug, Deserialize, PartialEq)]
+#[allow(dead_code)]
+struct Doc {
+    a: i32,
+    #[serde(default)]
+    s: Option<String>,
+    #[serde(default)]
+    m: Option<BTreeMap<String, i32>>,
+    #[serde(default)]
+    l: Vec<i32>,
+    /// `deserialize_unit` rejects a non-null value after *peeking* it (the event stays in the look-ahead slot)
+    #[serde(default)]
+    u: (),
+    z: i32,
+}
+
+/// Anchor-identity target: pointer sharing inside one document is part of the value.
+#[derive(Deserialize)]
+struct RcDoc {
+    a: serde_saphyr::RcAnchor<i32>,
+    #[serde(default)]
+    l: Option<serde_saphyr::RcAnchor<Vec<i32>>>,
+    z: serde_saphyr::RcAnchor<i32>,
+}
+
+impl Debug for RcDoc {
+    fn fmt(&self, f: &mut std::fmt::Formatter<'_>) -> std::fmt::Result {
+        write!(
+            f,
+            "RcDoc{{a:{}, l:{:?}, z:{}, a_is_z:{}}}",
+            *self.a.0,
+            self.l.as_ref().map(|l| (*l.0).clone()),
+            *self.z.0,
+            std::rc::Rc::ptr_eq(&self.a.0, &self.z.0)
+        )
+    }
+}
+
+/// Ok(rendered value) or Err(error kind).
+type Out = Result<String, String>;
+
+fn conv<T: Debug>(r: Result<T, serde_saphyr::Error>) -> Out {
+    match r {
+        Ok(v) => Ok(format!("{v:?}")),
+        Err(e) => Err(vcore::errs::kind(&e)),
+    }
+}
+
+#[derive(Default, Debug)]
+struct IterTrace {
+    items: Vec<Out>,
+    calls: usize,
+    ended: bool,
+    item_after_none: bool,
+}
+
+#[derive(Clone, Copy, Debug, PartialEq)]
+enum Single {
+    FromStr,
+    FromSlice,
+    FromReader,
+    WithDeStr,
+    WithDeSlice,
+    WithDeReader,
+}
+const SINGLES: [Single; 6] =
+    [Single::FromStr, Single::FromSlice, Single::FromReader, Single::WithDeStr, Single::WithDeSlice, Single::WithDeReader];
+
+impl Single {
+    fn name(self) -> &'static str {
+        match self {
+            Single::FromStr => "from_str",
+            Single::FromSlice => "from_slice",
+            Single::FromReader => "from_reader",
+            Single::WithDeStr => "with_deserializer_from_str",
+            Single::WithDeSlice => "with_deserializer_from_slice",
+            Single::WithDeReader => "with_deserializer_from_reader",
+        }
+    }
+}
+
+struct Target {
+    name: &'static str,
+    alone: fn(&str) -> Out,
+    batch: fn(&str, bool) -> Result<Vec<String>, String>,
+    iter: fn(&[u8], usize, bool, usize) -> IterTrace,
+    single: fn(&str, Single, usize) -> Out,
+}
+
+fn t_alone<T: DeserializeOwned + Debug>(s: &str) -> Out {
+    conv(serde_saphyr::from_str::<T>(s))
+}
+
+fn t_batch<T: DeserializeOwned + Debug>(s: &str, slice: bool) -> Result<Vec<String>, String> {
+    let r = if slice { serde_saphyr::from_slice_multiple::<T>(s.as_bytes()) } else { serde_saphyr::from_multiple::<T>(s) };
+    match r {
+        Ok(v) => Ok(v.iter().map(|x| format!("{x:?}")).collect()),
+        Err(e) => Err(vcore::errs::kind(&e)),
+    }
+}
+
+fn t_iter<T: DeserializeOwned + Debug>(bytes: &[u8], chunk: usize, with_options: bool, max_calls: usize) -> IterTrace {
+    let mut rd = FaultReader::new(bytes, Schedule::fixed(chunk), Fault::None);
+    let mut it: Box<dyn Iterator<Item = Result<T, serde_saphyr::Error>> + '_> = if with_options {
+        Box::new(serde_saphyr::read_with_options::<_, T>(&mut rd, serde_saphyr::Options::default()))
+    } else {
+        serde_saphyr::read::<_, T>(&mut rd)
+    };
+    let mut tr = IterTrace::default();
+    while tr.calls < max_calls {
+        tr.calls += 1;
+        match it.next() {
+            None => {
+                tr.ended = true;
+                break;
+            }
+            Some(r) => tr.items.push(conv(r)),
+        }
+    }
+    if tr.ended {
+        for _ in 0..2 {
+            if it.next().is_some() {
+                tr.item_after_none = true;
+            }
+        }
+    }
+    tr
+}
+
+fn t_single<T: DeserializeOwned + Debug>(s: &str, which: Single, chunk: usize) -> Out {
+    match which {
+        Single::FromStr => conv(serde_saphyr::from_str::<T>(s)),
+        Single::FromSlice => conv(serde_saphyr::from_slice::<T>(s.as_bytes())),
+        Single::FromReader => {
+            let rd = FaultReader::new(s.as_bytes(), Schedule::fixed(chunk), Fault::None);
+            conv(serde_saphyr::from_reader::<_, T>(rd))
+        }
+        Single::WithDeStr => conv(serde_saphyr::with_deserializer_from_str(s, |de| T::deserialize(de))),
+        Single::WithDeSlice => conv(serde_saphyr::with_deserializer_from_slice(s.as_bytes(), |de| T::deserialize(de))),
+        Single::WithDeReader => {
+            let rd = FaultReader::new(s.as_bytes(), Schedule::fixed(chunk), Fault::None);
+            conv(serde_saphyr::with_deserializer_from_reader(rd, |de| T::deserialize(de)))
+        }
+    }
+}
+
+macro_rules! target {
+    ($n:expr, $t:ty) => {
+        Target { name: $n, alone: t_alone::<$t>, batch: t_batch::<$t>, iter: t_iter::<$t>, single: t_single::<$t> }
+    };
+}
+
+static TARGETS: [Target; 4] = [target!("Doc", Doc), target!("Val", Val), target!("i64", i64), target!("RcDoc", RcDoc)];
+
+fn target_by_name(n: &str) -> Option<&'static Target> {
+    TARGETS.iter().find(|t| t.name == n)
+}
+
+// ------------------------------------------------------------------ document kinds
+
+#[derive(Clone, Copy, Debug, PartialEq)]
+enum Nature {
+    /// value or type-level error, decided by deserializing the body alone
+    Plain,
+    /// empty / null document: skipped by the multi-document entry points
+    Null,
+    /// contains an alias whose anchor is not in this document
+    Alias,
+    /// raw parser fails inside this document
+    Syntax,
+}
+
+struct Kind {
+    name: &'static str,
+    nature: Nature,
+    /// anchor names this kind defines / uses without defining
+    defines: &'static [&'static str],
+    uses: &'static [&'static str],
+}
+
+const K: usize = 18;
+static KINDS: [Kind; K] = [
+    Kind { name: "valid-block", nature: Nature::Plain, defines: &[], uses: &[] },
+    Kind { name: "valid-flow", nature: Nature::Plain, defines: &[], uses: &[] },
+    Kind { name: "valid-nested", nature: Nature::Plain, defines: &[], uses: &[] },
+    Kind { name: "empty", nature: Nature::Null, defines: &[], uses: &[] },
+    Kind { name: "tilde", nature: Nature::Null, defines: &[], uses: &[] },
+    Kind { name: "anchor-def", nature: Nature::Plain, defines: &["x", "y"], uses: &[] },
+    Kind { name: "alias-first-field", nature: Nature::Alias, defines: &[], uses: &["x"] },
+    Kind { name: "type-error-first-field", nature: Nature::Plain, defines: &[], uses: &[] },
+    Kind { name: "type-error-last-field", nature: Nature::Plain, defines: &[], uses: &[] },
+    Kind { name: "syntax-error", nature: Nature::Syntax, defines: &[], uses: &[] },
+    Kind { name: "unterminated-flow", nature: Nature::Syntax, defines: &[], uses: &[] },
+    Kind { name: "overflow-root", nature: Nature::Plain, defines: &[], uses: &[] },
+    Kind { name: "alias-nested-late", nature: Nature::Alias, defines: &[], uses: &["y"] },
+    Kind { name: "type-error-nested", nature: Nature::Plain, defines: &[], uses: &[] },
+    Kind { name: "missing-last-field", nature: Nature::Plain, defines: &[], uses: &[] },
+    Kind { name: "type-error-in-replay", nature: Nature::Plain, defines: &["y"], uses: &[] },
+    Kind { name: "root-int", nature: Nature::Plain, defines: &[], uses: &[] },
+    Kind { name: "type-error-peeked-unit", nature: Nature::Plain, defines: &[], uses: &[] },
+];
+
+/// Body text of a document of `kind` with the four numbers `v` (all >= 0).
+fn body(kind: usize, v: [u32; 4]) -> String {
+    let [v0, v1, v2, v3] = v;
+    match kind {
+        0 => format!("a: {v0}\nl: [{v1}, {v2}]\nz: {v3}\n"),
+        1 => format!("{{a: {v0}, z: {v3}}}\n"),
+        2 => format!("a: {v0}\ns: |\n  --- in {v1}\n  ... in\nm:\n  k: {v1}\n  j: {v2}\nl:\n- {v2}\n- {v3}\nz: {v3}\n"),
+        3 => String::new(),
+        4 => "~\n".to_string(),
+        5 => format!("a: &x {v0}\nl: &y [{v1}, {v2}]\nz: *x\n"),
+        6 => format!("a: *x\nz: {v3}\n"),
+        7 => format!("a: n{v0}\nl: [{v1}]\nz: {v3}\n"),
+        8 => format!("a: {v0}\nl: [{v1}, {v2}]\nz: n{v3}\n"),
+        9 => format!("a: {v0}\n- x{v1}\n"),
+        10 => format!("a: [{v0}, {v1}\n"),
+        11 => format!("99999999999999999999{v0}\n"),
+        12 => format!("a: {v0}\nl: [{v1}, *y]\nz: {v3}\n"),
+        13 => format!("a: {v0}\nm:\n  k: n{v1}\n  j: {v2}\nl: [{v2}]\nz: {v3}\n"),
+        14 => format!("a: {v0}\nl: [{v1}]\n"),
+        15 => format!("a: {v0}\nl: &y [{v1}, {v2}]\nm: *y\nz: {v3}\n"),
+        16 => format!("{v0}\n"),
+        17 => format!("a: {v0}\nu: {v1}\nl: [{v2}]\nz: {v3}\n"),
+        _ => unreachable!(),
+    }
+}
+
+fn pos_vals(pos: usize) -> [u32; 4] {
+    let b = 10 * pos as u32;
+    [b + 1, b + 2, b + 3, b + 4]
+}
+
+/// Alias-free variant with the same line structure (for confirming the cut).
+fn skeleton(body: &str) -> String {
+    body.replace("*x", "00").replace("*y", "00")
+}
+
+// ------------------------------------------------------------------ stream composition
+
+#[derive(Clone, Debug)]
+struct Stream {
+    kinds: Vec<usize>,
+    bodies: Vec<String>,
+    /// marker style before document i (see `compose`)
+    seps: Vec<u8>,
+    trailer: u8,
+    /// every line break of bodies and separators written as CR LF
+    crlf: bool,
+    text: String,
+}
+
+fn breaks(s: String, crlf: bool) -> String {
+    if crlf { s.replace('\n', "\r\n") } else { s }
+}
+
+const N_SEPS: u8 = 6;
+const N_TRAILERS: u8 = 4;
+
+fn compose(bodies: &[String], seps: &[u8], trailer: u8) -> String {
+    let mut s = String::new();
+    for (i, b) in bodies.iter().enumerate() {
+        let first = i == 0;
+        match seps[i] {
+            0 => s.push_str("---\n"),
+            1 => {
+                if !first {
+                    s.push_str("...\n");
+                }
+                s.push_str("---\n");
+            }
+            2 => {
+                if !first {
+                    s.push_str(&format!("# after document {}\n", i - 1));
+                }
+                s.push_str("--- # marker comment\n");
+            }
+            3 => {
+                if !first {
+                    s.push_str("... # end comment\n");
+                }
+                s.push_str("---\n");
+            }
+            4 => {
+                // implicit start: only meaningful for a non-empty first document
+                if !(first && !b.is_empty() && !b.starts_with('#')) {
+                    s.push_str("---\n");
+                }
+            }
+            _ => {
+                if !first {
+                    s.push('\n');
+                }
+                s.push_str("---\n");
+            }
+        }
+        s.push_str(b);
+    }
+    match trailer {
+        1 => s.push_str("...\n"),
+        2 => s.push_str("# end of stream\n"),
+        3 => s.push_str("...\n# end of stream\n"),
+        _ => {}
+    }
+    s
+}
+
+impl Stream {
+    fn new(kinds: Vec<usize>, bodies: Vec<String>, seps: Vec<u8>, trailer: u8, crlf: bool) -> Stream {
+        let text = breaks(compose(&bodies, &seps, trailer), crlf);
+        Stream { kinds, bodies, seps, trailer, crlf, text }
+    }
+    /// The text of document i as it is deserialized on its own.
+    fn body_text(&self, i: usize) -> String {
+        breaks(self.bodies[i].clone(), self.crlf)
+    }
+    fn n(&self) -> usize {
+        self.kinds.len()
+    }
+    fn to_json(&self, target: &str, chunk: usize) -> Value {
+        json!({
+            "text": self.text,
+            "kinds": self.kinds,
+            "kind_names": self.kinds.iter().map(|k| KINDS[*k].name).collect::<Vec<_>>(),
+            "bodies": self.bodies,
+            "seps": self.seps,
+            "trailer": self.trailer,
+            "crlf": self.crlf,
+            "target": target,
+            "chunk": chunk,
+        })
+    }
+    fn from_json(v: &Value) -> Option<(Stream, String, usize)> {
+        let kinds: Vec<usize> = v["kinds"].as_array()?.iter().map(|x| x.as_u64().unwrap_or(0) as usize).collect();
+        let bodies: Vec<String> = v["bodies"].as_array()?.iter().map(|x| x.as_str().unwrap_or("").to_string()).collect();
+        let seps: Vec<u8> = v["seps"].as_array()?.iter().map(|x| x.as_u64().unwrap_or(0) as u8).collect();
+        let trailer = v["trailer"].as_u64()? as u8;
+        if kinds.len() != bodies.len() || kinds.len() != seps.len() || kinds.iter().any(|k| *k >= K) {
+            return None;
+        }
+        let s = Stream::new(kinds, bodies, seps, trailer, v["crlf"].as_bool().unwrap_or(false));
+        if s.text != v["text"].as_str()? {
+            return None;
+        }
+        Some((s, v["target"].as_str()?.to_string(), v["chunk"].as_u64().unwrap_or(4096) as usize))
+    }
+}
+
+// ------------------------------------------------------------------ raw-parser confirmation
+
+fn ev_shape(e: &RawEvent) -> String {
+    match &e.kind {
+        RawKind::Scalar { value, style, anchor, tag } => {
+            format!("S{}{:?}{}{}", style_char(*style), value, if *anchor != 0 { "&" } else { "" }, tag.as_deref().unwrap_or(""))
+        }
+        RawKind::Alias(_) => "*".into(),
+        RawKind::SeqStart { anchor, .. } => format!("[{}", if *anchor != 0 { "&" } else { "" }),
+        RawKind::SeqEnd => "]".into(),
+        RawKind::MapStart { anchor, .. } => format!("{{{}", if *anchor != 0 { "&" } else { "" }),
+        RawKind::MapEnd => "}".into(),
+        RawKind::DocStart(_) => "DS".into(),
+        RawKind::DocEnd => "DE".into(),
+        RawKind::StreamStart => "SS".into(),
+        RawKind::StreamEnd => "SE".into(),
+        RawKind::Nothing => "N".into(),
+    }
+}
+
+/// Content-event shapes per document (a document that was cut short by a scan
+/// error is returned as the last, possibly partial, entry).
+fn docs_of(evs: &[RawEvent]) -> Vec<Vec<String>> {
+    let mut out: Vec<Vec<String>> = Vec::new();
+    for e in evs {
+        match e.kind {
+            RawKind::DocStart(_) => out.push(Vec::new()),
+            RawKind::DocEnd | RawKind::StreamStart | RawKind::StreamEnd | RawKind::Nothing => {}
+            _ => {
+                if let Some(d) = out.last_mut() {
+                    d.push(ev_shape(e));
+                }
+            }
+        }
+    }
+    out
+}
+
+struct Confirmed {
+    /// number of DocumentStart events the raw parser produced on the real text
+    /// before its first scan error (or in total)
+    raw_doc_starts: usize,
+    /// index of the document in which the raw parser fails on the real text
+    raw_err_doc: Option<usize>,
+}
+
+/// Confirm the generator's cut against the raw parser. `Err(reason)` = inconclusive.
+fn confirm(st: &Stream) -> Result<Confirmed, &'static str> {
+    let n = st.n();
+    let first_syntax = st.kinds.iter().position(|k| KINDS[*k].nature == Nature::Syntax);
+    // (a) alias-free skeleton: document count and per-document shape
+    let skel_bodies: Vec<String> = st.bodies.iter().map(|b| skeleton(b)).collect();
+    let skel = breaks(compose(&skel_bodies, &st.seps, st.trailer), st.crlf);
+    let (evs, err) = raw_events(&skel);
+    let docs = docs_of(&evs);
+    match first_syntax {
+        Some(f) => {
+            if err.is_none() {
+                return Err("cut not confirmed: syntax-error document parsed cleanly");
+            }
+            if docs.len() != f + 1 {
+                return Err("cut not confirmed: DocumentStart count before the scan error differs");
+            }
+        }
+        None => {
+            if err.is_some() {
+                return Err("cut not confirmed: unexpected scan error in skeleton");
+            }
+            if docs.len() != n {
+                return Err("cut not confirmed: DocumentStart count differs");
+            }
+        }
+    }
+    for i in 0..first_syntax.unwrap_or(n) {
+        let (aevs, aerr) = raw_events(&breaks(format!("---\n{}", skel_bodies[i]), st.crlf));
+        if aerr.is_some() {
+            return Err("cut not confirmed: skeleton body does not parse alone");
+        }
+        let adocs = docs_of(&aevs);
+        if adocs.len() != 1 || adocs[0] != docs[i] {
+            return Err("cut not confirmed: document shape in stream differs from body alone");
+        }
+    }
+    // (b) real text: where does the raw parser stop?
+    let mut defined: Vec<&str> = Vec::new();
+    let mut predicted: Option<usize> = None;
+    for (i, k) in st.kinds.iter().enumerate() {
+        let kd = &KINDS[*k];
+        if kd.nature == Nature::Syntax || kd.uses.iter().any(|u| !defined.contains(u)) {
+            predicted = Some(i);
+            break;
+        }
+        defined.extend_from_slice(kd.defines);
+    }
+    let (revs, rerr) = raw_events(&st.text);
+    let rdocs = docs_of(&revs);
+    match predicted {
+        Some(p) => {
+            if rerr.is_none() || rdocs.len() != p + 1 {
+                return Err("cut not confirmed: raw parser does not fail in the predicted document");
+            }
+        }
+        None => {
+            if rerr.is_some() || rdocs.len() != n {
+                return Err("cut not confirmed: raw parser result on the real text differs");
+            }
+        }
+    }
+    Ok(Confirmed { raw_doc_starts: rdocs.len(), raw_err_doc: predicted })
+}
+
+// ------------------------------------------------------------------ expectation
+
+#[derive(Clone, Copy, Debug, PartialEq)]
+enum Class {
+    Ok,
+    TypeErr,
+    Syntax,
+    /// dangling alias, raw parser resolved the name to an earlier document's anchor
+    AliasRawOk,
+    /// dangling alias, raw parser itself reports a scan error
+    AliasRawErr,
+}
+
+impl Class {
+    fn tag(self) -> &'static str {
+        match self {
+            Class::Ok => "ok",
+            Class::TypeErr => "type-error",
+            Class::Syntax => "syntax-error",
+            Class::AliasRawOk | Class::AliasRawErr => "dangling-alias",
+        }
+    }
+}
+
+struct PlanItem {
+    doc: usize,
+    class: Class,
+    /// Some(value) when the document succeeds alone
+    value: Option<String>,
+}
+
+/// `alone[i]` = the body of document i deserialized on its own.
+fn plan(st: &Stream, cf: &Confirmed, alone: &[Out]) -> Result<Vec<PlanItem>, &'static str> {
+    let mut out = Vec::new();
+    for i in 0..st.n() {
+        let kd = &KINDS[st.kinds[i]];
+        match kd.nature {
+            Nature::Null => continue,
+            Nature::Plain => match &alone[i] {
+                Ok(v) => out.push(PlanItem { doc: i, class: Class::Ok, value: Some(v.clone()) }),
+                Err(_) => out.push(PlanItem { doc: i, class: Class::TypeErr, value: None }),
+            },
+            Nature::Syntax => {
+                if alone[i].is_ok() {
+                    return Err("model: syntax-error body deserialized alone without error");
+                }
+                out.push(PlanItem { doc: i, class: Class::Syntax, value: None });
+            }
+            Nature::Alias => {
+                if alone[i].is_ok() {
+                    return Err("model: dangling-alias body deserialized alone without error");
+                }
+                let class = if cf.raw_err_doc == Some(i) { Class::AliasRawErr } else { Class::AliasRawOk };
+                out.push(PlanItem { doc: i, class, value: None });
+            }
+        }
+    }
+    Ok(out)
+}
+
+fn kind_group(k: usize) -> &'static str {
+    match KINDS[k].nature {
+        Nature::Null => "null",
+        Nature::Alias => "alias",
+        Nature::Syntax => "syntax",
+        Nature::Plain => match k {
+            0..=2 | 16 => "valid",
+            5 => "anchor-def",
+            15 => "replay",
+            _ => "type-error-kind",
+        },
+    }
+}
+
+// ------------------------------------------------------------------ the monitor
+
+struct Local {
+    c: BTreeMap<&'static str, u64>,
+}
+
+thread_local! {
+    static SEEN_LABELS: std::cell::RefCell<std::collections::HashSet<u64>> = std::cell::RefCell::new(Default::default());
+    static MAX_SLACK: std::cell::Cell<u64> = const { std::cell::Cell::new(0) };
+}
+
+/// `run.observe` behind a per-thread filter (the global set is behind one lock).
+fn observe(run: &Run, set: &'static str, class: &str, kind: &str) {
+    let h = fnv_parts(&[set.as_bytes(), class.as_bytes(), kind.as_bytes()]);
+    let new = SEEN_LABELS.with(|s| s.borrow_mut().insert(h));
+    if new {
+        run.observe(set, &format!("{class}:{kind}"));
+    }
+}
+static VIOLATION_COUNTS: std::sync::Mutex<BTreeMap<String, u64>> = std::sync::Mutex::new(BTreeMap::new());
+const MAX_REPORTS_PER_SIGNATURE: u64 = 16;
+
+/// Report a violation; after `MAX_REPORTS_PER_SIGNATURE` reports of one signature the rest are
+/// only counted (the run has failed anyway, and `Run::violation` de-duplicates with a linear scan).
+fn viol(run: &Run, signature: &str, case: Value, detail: String) {
+    let n = {
+        let mut m = VIOLATION_COUNTS.lock().unwrap();
+        let e = m.entry(signature.to_string()).or_insert(0);
+        *e += 1;
+        *e
+    };
+    if n <= MAX_REPORTS_PER_SIGNATURE {
+        run.violation(signature, case, detail);
+    }
+}
+
+impl Local {
+    fn new() -> Self {
+        Local { c: BTreeMap::new() }
+    }
+    fn add(&mut self, k: &'static str, n: u64) {
+        *self.c.entry(k).or_insert(0) += n;
+    }
+}
+
+fn show_items(items: &[Out]) -> String {
+    let v: Vec<String> = items
+        .iter()
+        .map(|o| match o {
+            Ok(v) => format!("Ok({v})"),
+            Err(k) => format!("Err({k})"),
+        })
+        .collect();
+    format!("[{}]", v.join(", "))
+}
+
+fn show_plan(p: &[PlanItem]) -> String {
+    let v: Vec<String> = p
+        .iter()
+        .map(|i| match &i.value {
+            Some(v) => format!("#{} Ok({v})", i.doc),
+            None => format!("#{} Err<{}>", i.doc, i.class.tag()),
+        })
+        .collect();
+    format!("[{}]", v.join(", "))
+}
+
+/// Compare the items of one iterator run with the plan.
+fn check_iter(run: &Run, lc: &mut Local, st: &Stream, tn: &str, chunk: usize, entry: &'static str, plan: &[PlanItem], tr: &IterTrace) {
+    let case = || {
+        let mut c = st.to_json(tn, chunk);
+        c["entry"] = json!(entry);
+        c
+    };
+    let detail = |what: &str| format!("{entry}<{tn}>: {what}; expected {} got {} (calls={}, ended={})", show_plan(plan), show_items(&tr.items), tr.calls, tr.ended);
+    if !tr.ended {
+        viol(run,
+            "C11:iter:no-none-within-documents+2-calls",
+            case(),
+            detail(&format!("iterator did not return None within {} next() calls for {} documents", tr.calls, st.n())),
+        );
+        return;
+    }
+    if tr.item_after_none {
+        viol(run, "C11:iter:item-after-none", case(), detail("iterator yielded an item after returning None"));
+        return;
+    }
+    lc.add("iter_runs_ended_within_bound", 1);
+    let mut ai = 0usize;
+    let mut prev: Option<Class> = None;
+    let prev_tag = |p: Option<Class>| p.map(|c| c.tag()).unwrap_or("start");
+    for item in plan {
+        let grp = kind_group(st.kinds[item.doc]);
+        let Some(act) = tr.items.get(ai) else {
+            // iterator ended although documents remain
+            match prev {
+                Some(Class::AliasRawOk) => {
+                    lc.add("unspecified/iterator-ended-after-dangling-alias", 1);
+                }
+                _ => viol(run,
+                    &format!("C11:iter:ended-early:after-{}", prev_tag(prev)),
+                    case(),
+                    detail(&format!("iterator ended before document #{} ({})", item.doc, KINDS[st.kinds[item.doc]].name)),
+                ),
+            }
+            return;
+        };
+        match (&item.value, act) {
+            (Some(v), Ok(a)) if v == a => {
+                if prev == Some(Class::TypeErr) {
+                    lc.add("iter_ok_item_right_after_type_error", 1);
+                }
+                if prev == Some(Class::AliasRawOk) {
+                    lc.add("iter_ok_item_right_after_dangling_alias", 1);
+                }
+            }
+            (Some(_), Ok(_)) => {
+                viol(run,
+                    &format!("C11:iter:value-differs:at-{grp}:after-{}", prev_tag(prev)),
+                    case(),
+                    detail(&format!("item for document #{} differs from the document deserialized alone", item.doc)),
+                );
+                return;
+            }
+            (Some(_), Err(_)) => {
+                viol(run,
+                    &format!("C11:iter:expected-ok-got-err:at-{grp}:after-{}", prev_tag(prev)),
+                    case(),
+                    detail(&format!("document #{} succeeds alone but failed in the stream", item.doc)),
+                );
+                return;
+            }
+            (None, Ok(_)) => {
+                viol(run,
+                    &format!("C11:iter:expected-err-got-ok:at-{grp}:after-{}", prev_tag(prev)),
+                    case(),
+                    detail(&format!("document #{} ({}) fails alone but succeeded in the stream", item.doc, KINDS[st.kinds[item.doc]].name)),
+                );
+                return;
+            }
+            (None, Err(k)) => {
+                observe(run, "iter_error_kinds", item.class.tag(), k);
+            }
+        }
+        ai += 1;
+        match item.class {
+            Class::Syntax => {
+                if tr.items.len() != ai {
+                    viol(run,
+                        "C11:iter:continued-after-syntax-error",
+                        case(),
+                        detail(&format!("iterator yielded {} more item(s) after the syntax error in document #{}", tr.items.len() - ai, item.doc)),
+                    );
+                } else {
+                    lc.add("iter_ended_at_syntax_error", 1);
+                }
+                return;
+            }
+            Class::AliasRawErr => {
+                lc.add("unspecified/after-dangling-alias-scan-error", 1);
+                return;
+            }
+            Class::AliasRawOk => lc.add("iter_dangling_alias_failed_in_its_document", 1),
+            Class::TypeErr => lc.add("iter_type_error_items", 1),
+            Class::Ok => lc.add("iter_ok_items", 1),
+        }
+        prev = Some(item.class);
+    }
+    if tr.items.len() > ai {
+        viol(run,
+            &format!("C11:iter:extra-items:after-{}", prev_tag(prev)),
+            case(),
+            detail("iterator yielded more items than the stream has non-null documents"),
+        );
+    }
+}
+
+fn check_batch(run: &Run, lc: &mut Local, st: &Stream, tn: &str, entry: &'static str, plan: &[PlanItem], got: &Result<Vec<String>, String>) {
+    let case = || {
+        let mut c = st.to_json(tn, 0);
+        c["entry"] = json!(entry);
+        c
+    };
+    let first_bad = plan.iter().find(|p| p.value.is_none());
+    match (first_bad, got) {
+        (None, Ok(list)) => {
+            let want: Vec<&String> = plan.iter().map(|p| p.value.as_ref().unwrap()).collect();
+            if want.len() != list.len() || want.iter().zip(list.iter()).any(|(a, b)| *a != b) {
+                viol(run,
+                    "C11:batch:list-differs",
+                    case(),
+                    format!("{entry}<{tn}>: expected {} got [{}]", show_plan(plan), list.join(", ")),
+                );
+            } else {
+                lc.add("batch_ok_lists", 1);
+            }
+        }
+        (None, Err(k)) => viol(run,
+            "C11:batch:expected-ok-got-err",
+            case(),
+            format!("{entry}<{tn}>: every document succeeds alone, stream gave Err({k}); expected {}", show_plan(plan)),
+        ),
+        (Some(bad), Ok(list)) => viol(run,
+            &format!("C11:batch:expected-err-got-ok:{}", bad.class.tag()),
+            case(),
+            format!(
+                "{entry}<{tn}>: document #{} ({}) fails alone, stream gave Ok([{}])",
+                bad.doc,
+                KINDS[st.kinds[bad.doc]].name,
+                list.join(", ")
+            ),
+        ),
+        (Some(bad), Err(k)) => {
+            observe(run, "batch_error_kinds", bad.class.tag(), k);
+            lc.add("batch_err", 1);
+        }
+    }
+}
+
+fn check_single(run: &Run, lc: &mut Local, st: &Stream, cf: &Confirmed, tn: &str, chunk: usize, which: Single, alone0: &Out, got: &Out) {
+    let case = || {
+        let mut c = st.to_json(tn, chunk);
+        c["entry"] = json!(which.name());
+        c
+    };
+    if cf.raw_doc_starts >= 2 {
+        match got {
+            Ok(v) => viol(run,
+                "C11:single:multi-document-stream-accepted",
+                case(),
+                format!("{}<{tn}>: raw parser shows {} DocumentStart events, got Ok({v})", which.name(), cf.raw_doc_starts),
+            ),
+            Err(k) => {
+                observe(run, "single_reject_kinds", which.name(), k);
+                lc.add("single_rejected_multi_document_stream", 1);
+            }
+        }
+        return;
+    }
+    if st.n() >= 2 {
+        // the raw parser stops inside the first document: the stream must not be accepted
+        if alone0.is_err() {
+            match got {
+                Ok(v) => viol(run,
+                    "C11:single:failing-first-document-accepted",
+                    case(),
+                    format!("{}<{tn}>: first document fails alone ({alone0:?}), stream gave Ok({v})", which.name()),
+                ),
+                Err(_) => lc.add("single_rejected_failing_first_document", 1),
+            }
+        }
+        return;
+    }
+    // exactly one document: markers and comments around it must not matter
+    match (alone0, got) {
+        (Ok(a), Ok(b)) if a == b => lc.add("single_one_document_stream_same_value", 1),
+        (Err(_), Err(_)) => lc.add("single_one_document_stream_both_err", 1),
+        _ => viol(run,
+            "C11:single:one-document-stream-differs-from-document",
+            case(),
+            format!("{}<{tn}>: document alone {:?}, one-document stream {:?}", which.name(), alone0, got),
+        ),
+    }
+}
+
+struct Plan2 {
+    which_singles: &'static [Single],
+    trace_hooks: bool,
+}
+
+/// Run every entry point on one confirmed stream for one target.
+fn check_stream(run: &Run, lc: &mut Local, st: &Stream, t: &'static Target, alone: &[Out], chunk: usize, p2: &Plan2) {
+    let cf = match confirm(st) {
+        Ok(c) => c,
+        Err(why) => {
+            run.inconclusive(why);
+            return;
+        }
+    };
+    let pl = match plan(st, &cf, alone) {
+        Ok(p) => p,
+        Err(why) => {
+            run.inconclusive(why);
+            return;
+        }
+    };
+    let n = st.n();
+    if n >= 2 {
+        run.nontrivial(fnv_parts(&[st.text.as_bytes(), t.name.as_bytes()]));
+    }
+    lc.add("streams_x_targets_checked", 1);
+    let pan = |run: &Run, entry: &str, p: String| {
+        let mut c = st.to_json(t.name, chunk);
+        c["entry"] = json!(entry);
+        viol(run, &format!("C11:panic:{}", panic_site(&p)), c, format!("{entry}<{}> panicked: {p}", t.name));
+    };
+    // batch
+    for (slice, entry) in [(false, "from_multiple"), (true, "from_slice_multiple")] {
+        run.eval();
+        match catch(|| (t.batch)(&st.text, slice)) {
+            Ok(got) => check_batch(run, lc, st, t.name, entry, &pl, &got),
+            Err(p) => pan(run, entry, p),
+        }
+    }
+    // iterators
+    for (with_options, entry) in [(false, "read"), (true, "read_with_options")] {
+        run.eval();
+        let ch = if with_options { chunk } else { 1 << 16 };
+        let r = if p2.trace_hooks && with_options {
+            let (r, trace) = vcore::hooks::traced(1 << 14, || catch(|| (t.iter)(st.text.as_bytes(), ch, with_options, n + 2)));
+            let sh = trace.shadow();
+            lc.add("hook_doc_resets", sh.doc_resets);
+            lc.add("hook_parser_pumps", sh.pumps_parser);
+            lc.add("hook_replay_pumps", sh.pumps_replay);
+            lc.add("hook_traced_runs", 1);
+            r
+        } else {
+            catch(|| (t.iter)(st.text.as_bytes(), ch, with_options, n + 2))
+        };
+        match r {
+            Ok(tr) => {
+                if tr.ended {
+                    let slack = (tr.calls as i64 - n as i64).max(0) as u64;
+                    if MAX_SLACK.with(|m| m.get() < slack && { m.set(slack); true }) {
+                        run.max("iter_max_calls_minus_documents", slack);
+                    }
+                }
+                check_iter(run, lc, st, t.name, ch, entry, &pl, &tr)
+            }
+            Err(p) => pan(run, entry, p),
+        }
+    }
+    // single-document entry points
+    for &w in p2.which_singles {
+        run.eval();
+        match catch(|| (t.single)(&st.text, w, chunk)) {
+            Ok(got) => check_single(run, lc, st, &cf, t.name, chunk, w, &alone[0], &got),
+            Err(p) => pan(run, w.name(), p),
+        }
+    }
+}
+
+// ------------------------------------------------------------------ workloads
+
+const EXH_STYLES: usize = 3;
+
+fn exhaustive_stream(seq: &[usize], style: usize) -> Stream {
+    let n = seq.len();
+    let bodies: Vec<String> = seq.iter().enumerate().map(|(i, k)| body(*k, pos_vals(i))).collect();
+    let (seps, trailer): (Vec<u8>, u8) = match style {
+        0 => (vec![0; n], 0),
+        1 => (vec![1; n], 1),
+        _ => {
+            let mut s = vec![2u8; n];
+            s[0] = 4;
+            (s, 2)
+        }
+    };
+    Stream::new(seq.to_vec(), bodies, seps, trailer, false)
+}
+
+fn random_stream(rng: &mut Rng) -> Stream {
+    let n = match rng.below(10) {
+        0..=2 => rng.range(2, 6),
+        3..=6 => rng.range(6, 16),
+        _ => rng.range(16, 40),
+    };
+    // how likely a fatal document is: mostly rare, so that long streams are walked to the end
+    let fatal_pct = *rng.pick(&[0usize, 0, 2, 5, 15]);
+    let alias_pct = *rng.pick(&[0usize, 5, 15, 30]);
+    let mut kinds = Vec::with_capacity(n);
+    let mut bodies = Vec::with_capacity(n);
+    for _ in 0..n {
+        let r = rng.below(100);
+        let k = if r < fatal_pct {
+            *rng.pick(&[9usize, 10])
+        } else if r < fatal_pct + alias_pct {
+            *rng.pick(&[6usize, 12])
+        } else {
+            *rng.pick(&[0usize, 0, 1, 2, 2, 3, 4, 5, 5, 7, 7, 8, 8, 11, 13, 13, 14, 15, 16, 17, 17])
+        };
+        let v = [rng.below(1000) as u32, rng.below(1000) as u32, rng.below(1000) as u32, rng.below(1000) as u32];
+        let mut b = body(k, v);
+        // spelling variants of the null document
+        if k == 4 {
+            b = (*rng.pick(&["~\n", "null\n", "~ # null\n", "# only a comment\n"])).to_string();
+        }
+        kinds.push(k);
+        bodies.push(b);
+    }
+    let uniform = rng.chance(1, 3);
+    let u = rng.below(4) as u8;
+    let mut seps: Vec<u8> = (0..n).map(|_| if uniform { u } else { rng.below(N_SEPS as usize) as u8 }).collect();
+    if rng.chance(1, 3) {
+        seps[0] = 4;
+    }
+    let trailer = rng.below(N_TRAILERS as usize) as u8;
+    let crlf = rng.chance(1, 5);
+    Stream::new(kinds, bodies, seps, trailer, crlf)
+}
+
+fn alone_all(run: &Run, t: &Target, st: &Stream) -> Option<Vec<Out>> {
+    let mut v = Vec::with_capacity(st.n());
+    for i in 0..st.n() {
+        let b = &st.body_text(i);
+        run.eval();
+        match catch(|| (t.alone)(b)) {
+            Ok(o) => v.push(o),
+            Err(p) => {
+                viol(run,
+                    &format!("C11:panic:{}", panic_site(&p)),
+                    json!({"text": b, "target": t.name, "entry": "from_str (document alone)"}),
+                    format!("from_str<{}> on a single document panicked: {p}", t.name),
+                );
+                return None;
+            }
+        }
+    }
+    Some(v)
+}
+
+fn main() {
+    let run = Run::from_args("C11");
+    let all_singles: &'static [Single] = &SINGLES;
+
+    if let Some(rep) = run.is_replay() {
+        let case = &rep["case"];
+        match Stream::from_json(case) {
+            Some((st, tn, chunk)) => {
+                let Some(t) = target_by_name(&tn) else {
+                    eprintln!("harness error: unknown target in replay file");
+                    std::process::exit(2);
+                };
+                let mut lc = Local::new();
+                if let Some(alone) = alone_all(&run, t, &st) {
+                    check_stream(&run, &mut lc, &st, t, &alone, chunk.max(1), &Plan2 { which_singles: all_singles, trace_hooks: false });
+                }
+            }
+            None => {
+                // a panic of from_str on one document
+                if let (Some(text), Some(tn)) = (case["text"].as_str(), case["target"].as_str())
+                    && let Some(t) = target_by_name(tn)
+                {
+                    let st = Stream::new(vec![0], vec![text.to_string()], vec![4], 0, false);
+                    let _ = alone_all(&run, t, &st);
+                } else {
+                    eprintln!("harness error: replay file does not describe a C11 case");
+                    std::process::exit(2);
+                }
+            }
+        }
+        run.finish(Finish::new("replay"));
+    }
+
+    let tier = run.tier;
+    let max_len = tier.pick(4usize, 5usize);
+
+    // ---- documents alone, per (target, kind, position): the expectation table of the exhaustive part
+    let mut alone_tab: Vec<Vec<Vec<Out>>> = Vec::new(); // [target][kind][pos]
+    for t in TARGETS.iter() {
+        let mut per_kind = Vec::new();
+        for k in 0..K {
+            let mut per_pos = Vec::new();
+            for pos in 0..max_len {
+                run.eval();
+                let b = body(k, pos_vals(pos));
+                match catch(|| (t.alone)(&b)) {
+                    Ok(o) => {
+                        run.observe(
+                            "document_alone_outcomes",
+                            &format!("{}<{}>: {}", KINDS[k].name, t.name, match &o {
+                                Ok(_) => "Ok".to_string(),
+                                Err(e) => format!("Err({e})"),
+                            }),
+                        );
+                        per_pos.push(o);
+                    }
+                    Err(p) => {
+                        viol(&run,
+                            &format!("C11:panic:{}", panic_site(&p)),
+                            json!({"text": b, "target": t.name, "entry": "from_str (document alone)"}),
+                            format!("from_str<{}> panicked: {p}", t.name),
+                        );
+                        per_pos.push(Err("panic".into()));
+                    }
+                }
+            }
+            per_kind.push(per_pos);
+        }
+        alone_tab.push(per_kind);
+    }
+
+    // ---- exhaustive: every kind sequence of length 1..=max_len x 3 separator styles x 4 targets
+    let mut offsets = vec![0usize];
+    for n in 1..=max_len {
+        offsets.push(offsets[n - 1] + K.pow(n as u32));
+    }
+    let total_seq = offsets[max_len];
+    run.count("exhaustive_kind_sequences", total_seq as u64);
+    par_range(total_seq * EXH_STYLES, |idx| {
+        let style = idx % EXH_STYLES;
+        let sidx = idx / EXH_STYLES;
+        let n = (1..=max_len).find(|n| sidx < offsets[*n]).unwrap();
+        let mut r = sidx - offsets[n - 1];
+        let mut seq = vec![0usize; n];
+        for d in (0..n).rev() {
+            seq[d] = r % K;
+            r /= K;
+        }
+        let st = exhaustive_stream(&seq, style);
+        let mut lc = Local::new();
+        lc.add("exhaustive_streams", 1);
+        let chunk = [1usize, 3, 7, 64, 4096][idx % 5];
+        // all six single-document entry points for short streams; two of them (rotating) beyond
+        let singles: &'static [Single] = if n <= 3 {
+            all_singles
+        } else {
+            match idx % 3 {
+                0 => &[Single::FromStr, Single::WithDeReader],
+                1 => &[Single::FromSlice, Single::FromReader],
+                _ => &[Single::WithDeStr, Single::WithDeSlice],
+            }
+        };
+        for (ti, t) in TARGETS.iter().enumerate() {
+            let alone: Vec<Out> = seq.iter().enumerate().map(|(i, k)| alone_tab[ti][*k][i].clone()).collect();
+            check_stream(&run, &mut lc, &st, t, &alone, chunk, &Plan2 { which_singles: singles, trace_hooks: ti == 1 && idx % 64 == 0 });
+        }
+        if idx % 40_009 == 0 {
+            run.sample(|| json!({"text": st.text, "kinds": st.kinds.iter().map(|k| KINDS[*k].name).collect::<Vec<_>>()}));
+        }
+        run.count_map(&lc.c);
+    });
+
+    // ---- random longer streams (2..=40 documents), fresh numbers in every document
+    let n_random = tier.pick(20_000usize, 100_000usize);
+    par_range(n_random, |i| {
+        let mut rng = Rng::stream(run.seed, i as u64);
+        let st = random_stream(&mut rng);
+        let mut lc = Local::new();
+        lc.add("random_streams", 1);
+        if st.crlf {
+            lc.add("random_streams_crlf", 1);
+        }
+        run.max("random_max_documents", st.n() as u64);
+        let chunk = *rng.pick(&[1usize, 2, 5, 13, 100, 8192]);
+        for (ti, t) in TARGETS.iter().enumerate() {
+            let Some(alone) = alone_all(&run, t, &st) else { continue };
+            check_stream(&run, &mut lc, &st, t, &alone, chunk, &Plan2 { which_singles: all_singles, trace_hooks: ti == 1 && i % 16 == 0 });
+        }
+        if i % 997 == 0 {
+            run.sample(|| json!({"text": st.text, "kinds": st.kinds.iter().map(|k| KINDS[*k].name).collect::<Vec<_>>()}));
+        }
+        run.count_map(&lc.c);
+    });
+
+    let scope = format!(
+        "every sequence of length 1..={max_len} over {K} document kinds ({}) x 3 separator layouts (`---` | `...`+`---`+final `...` | implicit first document + comment lines + `--- # comment`) x 4 targets (derived struct Doc, untyped Val, i64, RcAnchor struct) x entry points from_multiple, from_slice_multiple, read, read_with_options and the six single-document entry points (all six for length <= 3, two rotating for longer)",
+        KINDS.iter().map(|k| k.name).collect::<Vec<_>>().join(", ")
+    );
+    let fin = Finish::new(
+        "a case (stream text, target) is non-trivial when the stream has >= 2 documents and its cut was confirmed by the raw parser's DocumentStart count and per-document event shapes; distinct by hash(text, target)",
+    )
+    .exhaustive(scope)
+    .assume("raw saphyr-parser event stream is the ground truth for where documents start and where a scan error occurs")
+    .assume("default Options (limits far above anything generated: <= 40 documents, <= 80 anchors)")
+    .assume("whether the iterator continues after a document that failed on a dangling alias is unspecified; everything after a dangling alias that the raw parser reports as scan error is unspecified")
+    .min_nontrivial(if tier == Tier::Quick { 50_000 } else { 500_000 });
+    run.finish(fin);
+}
